@@ -565,6 +565,10 @@ func init() {
 					e = g.Pick(0, 1, 127, 143, 144, 145, 150, 206, 207, 208, 254)
 				}
 				brs[j] = abs.V{"s": 0, "e": e, "f": f}
+				if j%8 == 7 {
+					// negative bitrates of every magnitude, fractions between -1 and 0 and negative subnormals included
+					brs[j] = abs.V{"s": 1, "e": g.Pick(0, 0, 1, 100, 126, 126, 127, 128, 150, 254, e), "f": g.Pick(0, 1, f)}
+				}
 			}
 			s.RembEncode(brs)
 			// SSRC lists of every length through the packet API
